@@ -151,7 +151,10 @@ pub fn check_file_prop(ctx: &Ctx, p: FileProp) -> i32 {
     if p == FileProp::C01 {
         tally.merge(scaling_part(ctx, p));
         tally.merge(crate::faults::retry_part(ctx, "C01"));
-        meta.rule = format!("{} On a scripted sink, every representative history x failure at every write call x every error kind x three finish attempts: whenever a finish reports success the sink's bytes must resolve to the accepted frames. Plus the scaling family: every video count 1..={} x three audio cadences x three submission shapes (files of up to ~300 samples), same oracle.", meta.rule, if ctx.thorough { 120 } else { 48 });
+        // thorough tier: files whose media data reaches 2^32 bytes (whatever finish accepts must
+        // still resolve sample by sample)
+        crate::widths::huge_part(ctx, &mut tally, "C01");
+        meta.rule = format!("{} On a scripted sink, every representative history x failure at every write call x every error kind x three finish attempts: whenever a finish reports success the sink's bytes must resolve to the accepted frames. Thorough tier: the huge-file cases of C16 (media data of 2^32 - 8 - e bytes, with and without trailing audio) under this oracle. Plus the scaling family: every video count 1..={} x three audio cadences x three submission shapes (files of up to ~300 samples), same oracle.", meta.rule, if ctx.thorough { 120 } else { 48 });
     }
     finish(ctx, &tally, meta)
 }
@@ -377,6 +380,17 @@ pub fn check_c15(ctx: &Ctx) -> i32 {
                     }
                     k += 1;
                     judge_history(FileProp::C15, cfg, &ops, (5_000_000 + idx as u64, k), t);
+                    // the same history with an audio frame that is rejected for its payload (at a
+                    // later time than anything accepted) right after the first audio frame: the
+                    // order of what was accepted must not depend on it
+                    if na >= 2 && step > 0.001 {
+                        if let Some(p) = ops.iter().position(|o| matches!(o, Op::WA { .. })) {
+                            let mut with_reject = ops.clone();
+                            with_reject.insert(p + 1, Op::WA { pts: oracle::model::T(POINTS as f64 * step), data: oracle::model::Bytes::new(vec![0x03]) });
+                            k += 1;
+                            judge_history(FileProp::C15, cfg, &with_reject, (5_000_000 + idx as u64, k), t);
+                        }
+                    }
                 }
             }
         }
@@ -385,7 +399,7 @@ pub fn check_c15(ctx: &Ctx) -> i32 {
     tally.count("lattice_histories", t2.evaluations);
     tally.merge(t2);
     tally.merge(scaling_part(ctx, FileProp::C15));
-    meta.rule = format!("(1) {} (2) timestamp lattice: video timestamps = every strictly increasing choice of <= {nvm} points of {{0,1,..,5}} x spacing {{0.02 s, 30 ticks (1 tick in the thorough tier)}}, audio timestamps = every non-decreasing choice of <= {nam} points not before the first video point (so cross-track equalities at every index combination occur), every admissible submission order (bursts, all-video-first, alternation), {{AAC, Opus}} x both layouts: storage order by file offset must equal the merge by (tick, video first, sample number) (3) scaling family: every video count 1..={} x three audio cadences with cross-track ties x three submission shapes (up to ~300 samples per file)", meta.rule, if ctx.thorough { 120 } else { 48 });
+    meta.rule = format!("(1) {} (2) timestamp lattice: video timestamps = every strictly increasing choice of <= {nvm} points of {{0,1,..,5}} x spacing {{0.02 s, 30 ticks (1 tick in the thorough tier)}}, audio timestamps = every non-decreasing choice of <= {nam} points not before the first video point (so cross-track equalities at every index combination occur), every admissible submission order (bursts, all-video-first, alternation), each also with a rejected audio frame after the first audio frame, {{AAC, Opus}} x both layouts: storage order by file offset must equal the merge by (tick, video first, sample number) (3) scaling family: every video count 1..={} x three audio cadences with cross-track ties x three submission shapes (up to ~300 samples per file)", meta.rule, if ctx.thorough { 120 } else { 48 });
     finish(ctx, &tally, meta)
 }
 
